@@ -42,7 +42,9 @@ extern "C" void harness(void)
   const unsigned ALL = (1u << NS) - 1;
   const unsigned occ = U::occurring(A);
 #if DIR == 1
+#ifndef ANY_AUTOMATON                          // C20 runs this harness on every automaton (memory safety is not limited to trimmed ones)
   vs_assume(U::usefulStates(A) == ALL);        // no useless states (then every present rule is useful as well)
+#endif
 #ifdef KF_EXCLUDE_UPWARD_ENV
   vs_assume(!U::hasRankAtLeast2(A));           // known finding C04-1: parent of a rank>=2 rule translated twice
 #endif
@@ -94,6 +96,9 @@ extern "C" void harness(void)
 
   // ---- the property: get(x,y) for all states of the automaton (a number that does not occur is not a state)
   bool G[NS][NS];
+#ifdef ANY_AUTOMATON
+  vs_allow_throw(1);                           // get() on a state the relation does not know throws; only memory safety is checked here
+#endif
   for (unsigned x = 0; x < NS; ++x) for (unsigned y = 0; y < NS; ++y) { G[x][y] = false;
     if (((occR >> x) & 1) & ((occR >> y) & 1)) {
       G[x][y] = sim.get(LIBSTATE(x), LIBSTATE(y));
